@@ -66,7 +66,7 @@ def rule_dispatch(ctx, cd, which="ser", R="R-C01-DISPATCH"):
             if xs(n.test) == "(t.inner_type is StructureType)":
                 top = n
         ok = top is not None and [xs(e.test) for e in top.elif_] == ["(t.inner_type is UnionType)"] and any(
-            isinstance(x, N.CallBlock) and xs(x.call.args[0]) == "False" for b in top.else_ for x in [b] + list(b.find_all(N.CallBlock)))
+            j2front.is_assert_false(N, x) for b in top.else_ for x in j2front.find_asserts(N, b))
         ctx.ob(R, cd.tmpl(lang, which).rel, f"{lang}: {impl} handles structure / union and fails generation otherwise", ok, "", m.lineno)
 
 
